@@ -557,8 +557,10 @@ func checkRespOn(seq []spec, in []actions.RespLunarAction) error {
 		if !eqMap(h, v.Headers) {
 			return fmt.Errorf("encoded response headers %v, action has %v", h, v.Headers)
 		}
-		if b, ok := bodyOf(enc.vars[actions.ResponseBodyActionName]); !ok || b != v.Body {
-			return fmt.Errorf("encoded body %q, action has %q", b, v.Body)
+		if raw, present := enc.vars[actions.ResponseBodyActionName]; !present {
+			return fmt.Errorf("the encoding carries no %s at all (variables %v): the proxy keeps the provider's body, the action's body is %q", actions.ResponseBodyActionName, keys(enc.vars), v.Body)
+		} else if b, ok := bodyOf(raw); !ok || b != v.Body {
+			return fmt.Errorf("encoded body %q (%T), action has %q", b, raw, v.Body)
 		}
 		if st, ok := enc.vars[actions.StatusCodeActionName].(int); !ok || st != v.Status {
 			return fmt.Errorf("encoded status %v, action has %d", enc.vars[actions.StatusCodeActionName], v.Status)
